@@ -637,6 +637,7 @@ impl<'a, T: Send> Future for RecvBatchFuture<'a, T> {
       }
     }
 
+    let still_linked = this.is_registered;
     this.is_registered = true;
     match this
       .receiver
@@ -644,10 +645,16 @@ impl<'a, T: Send> Future for RecvBatchFuture<'a, T> {
       .poll_recv_batch_internal(cx, state_ptr, &mut out, this.max)
     {
       Poll::Ready(Ok(_)) => {
+        if still_linked {
+          this.receiver.shared.unlink_async_receiver(state_ptr);
+        }
         this.is_registered = false;
         Poll::Ready(Ok(out))
       }
       Poll::Ready(Err(e)) => {
+        if still_linked {
+          this.receiver.shared.unlink_async_receiver(state_ptr);
+        }
         this.is_registered = false;
         Poll::Ready(Err(e))
       }
@@ -743,6 +750,7 @@ impl<'a, T: Send> Future for RecvBatchMutFuture<'a, T> {
       }
     }
 
+    let still_linked = this.is_registered;
     this.is_registered = true;
     match this
       .receiver
@@ -750,6 +758,9 @@ impl<'a, T: Send> Future for RecvBatchMutFuture<'a, T> {
       .poll_recv_batch_internal(cx, state_ptr, this.out, max)
     {
       Poll::Ready(res) => {
+        if still_linked {
+          this.receiver.shared.unlink_async_receiver(state_ptr);
+        }
         this.is_registered = false;
         Poll::Ready(res)
       }
@@ -841,9 +852,13 @@ impl<'a, T: Send> Future for RecvFuture<'a, T> {
       }
     }
 
+    let still_linked = this.is_registered;
     this.is_registered = true;
     match this.receiver.shared.poll_recv_internal(cx, state_ptr) {
       Poll::Ready(res) => {
+        if still_linked {
+          this.receiver.shared.unlink_async_receiver(state_ptr);
+        }
         this.is_registered = false;
         Poll::Ready(res)
       }
@@ -896,15 +911,22 @@ impl<T: Send> Stream for AsyncReceiver<T> {
     }
 
     let state_ptr = &this.state as *const AtomicU8;
+    let still_linked = this.is_registered;
     this.is_registered = true;
 
     match this.shared.poll_recv_internal(cx, state_ptr) {
       Poll::Ready(Ok(value)) => {
+        if still_linked {
+          this.shared.unlink_async_receiver(state_ptr);
+        }
         this.is_registered = false;
         this.state.store(STATE_WAITING, Ordering::Relaxed); // Reset for next recv cycle.
         Poll::Ready(Some(value))
       }
       Poll::Ready(Err(_)) => {
+        if still_linked {
+          this.shared.unlink_async_receiver(state_ptr);
+        }
         this.is_registered = false;
         this.state.store(STATE_WAITING, Ordering::Relaxed);
         Poll::Ready(None) // Disconnected
